@@ -86,11 +86,15 @@ def format_specs(prog):
 
 
 def insertion_points(prog):
-    """Offsets at which print_pqr inserts a blank in --whitespace mode (from the slice chain)."""
+    """Offsets at which print_pqr inserts a blank in --whitespace mode.
+
+    Recognised shapes: a chain `line[a:b] + " " + line[b:c] + ...`, or `" ".join(line[i:j] for i, j in zip(starts, ends))`
+    with `starts`/`ends` folding to constant sequences (module constants and star-unpacking included)."""
     fn = prog.func("main.py", "print_pqr").node
+    consts = prog.module_constants("main.py")
     best = None
     for n in walk_no_defs(fn):
-        if isinstance(n, ast.Assign) and isinstance(n.value, ast.BinOp):
+        if isinstance(n, ast.BinOp) and isinstance(n.op, ast.Add) and not (isinstance(parent_of(n), ast.BinOp)):
             parts = []
 
             def flat(e):
@@ -100,28 +104,75 @@ def insertion_points(prog):
                 else:
                     parts.append(e)
 
-            flat(n.value)
+            flat(n)
             if sum(isinstance(p, ast.Subscript) for p in parts) >= 2:
-                best = (n, parts)
+                best = ("chain", n, parts)
+    if best is None:
+        for c in calls_in(fn):
+            if isinstance(c.func, ast.Attribute) and c.func.attr == "join" and isinstance(c.func.value, ast.Constant) \
+                    and isinstance(c.func.value.value, str) and c.func.value.value.strip() == "" and c.func.value.value \
+                    and c.args and isinstance(c.args[0], (ast.GeneratorExp, ast.ListComp)):
+                gen = c.args[0]
+                if len(gen.generators) == 1 and isinstance(gen.elt, ast.Subscript) and isinstance(gen.elt.slice, ast.Slice):
+                    best = ("join", c, gen)
     if best is None:
         raise AnalysisError("print_pqr: the re-spacing expression (slices joined by blanks) was not found")
-    node, parts = best
-    cuts, pos, ok = [], 0, True
-    problems = []
-    for p in parts:
-        if isinstance(p, ast.Subscript) and isinstance(p.slice, ast.Slice):
-            lo = try_fold(p.slice.lower) if p.slice.lower else 0
-            hi = try_fold(p.slice.upper) if p.slice.upper else None
-            if lo != pos:
-                problems.append(f"slice {U(p)} starts at {lo}, previous slice ended at {pos} (characters lost or repeated)")
-            pos = hi
-        elif isinstance(p, ast.Constant) and isinstance(p.value, str) and p.value.strip() == "" and p.value:
-            cuts.append(pos)
-        else:
-            problems.append(f"unexpected piece {U(p)}")
+    problems, cuts = [], []
+    if best[0] == "chain":
+        node, parts = best[1], best[2]
+        pos = 0
+        for p in parts:
+            if isinstance(p, ast.Subscript) and isinstance(p.slice, ast.Slice):
+                lo = try_fold(p.slice.lower, consts) if p.slice.lower else 0
+                hi = try_fold(p.slice.upper, consts) if p.slice.upper else None
+                if lo != pos:
+                    problems.append(f"slice {U(p)} starts at {lo}, previous slice ended at {pos} (characters lost or repeated)")
+                pos = hi
+            elif isinstance(p, ast.Constant) and isinstance(p.value, str) and p.value.strip() == "" and p.value:
+                cuts.append(pos)
+            else:
+                problems.append(f"unexpected piece {U(p)}")
+        if pos is not None:
+            problems.append("the last slice is bounded: the tail of the line is dropped")
+        return node, cuts, problems
+    node, gen = best[1], best[2]
+    g = gen.generators[0]
+    env = dict(consts)
+    for st in iter_stmts(fn.body):
+        if isinstance(st, ast.Assign) and isinstance(st.targets[0], ast.Name):
+            v = try_fold(st.value, env)
+            if v is not None:
+                env[st.targets[0].id] = v
+    pairs = None
+    if isinstance(g.iter, ast.Call) and U(g.iter.func) == "zip" and len(g.iter.args) == 2:
+        a, b = try_fold(g.iter.args[0], env), try_fold(g.iter.args[1], env)
+        if isinstance(a, (list, tuple)) and isinstance(b, (list, tuple)):
+            pairs = list(zip(a, b))
+    elif isinstance(g.iter, ast.Call) and U(g.iter.func).endswith("pairwise") and g.iter.args:
+        a = try_fold(g.iter.args[0], env)
+        if isinstance(a, (list, tuple)):
+            pairs = list(zip(a, a[1:]))
+    else:
+        a = try_fold(g.iter, env)
+        if isinstance(a, (list, tuple)) and all(isinstance(x, (list, tuple)) and len(x) == 2 for x in a):
+            pairs = [tuple(x) for x in a]
+    tnames = [U(e) for e in g.target.elts] if isinstance(g.target, ast.Tuple) else []
+    if pairs is None or len(tnames) != 2 or U(gen.elt.slice.lower) != tnames[0] or U(gen.elt.slice.upper) != tnames[1]:
+        raise AnalysisError("print_pqr: join-based re-spacing whose slice bounds do not fold to constants")
+    pos = 0
+    for k, (lo, hi) in enumerate(pairs):
+        if lo != pos:
+            problems.append(f"slice [{lo}:{hi}] starts at {lo}, previous slice ended at {pos} (characters lost or repeated)")
+        pos = hi
+        if k < len(pairs) - 1:
+            cuts.append(hi)
     if pos is not None:
         problems.append("the last slice is bounded: the tail of the line is dropped")
     return node, cuts, problems
+
+
+def parent_of(n):
+    return getattr(n, "_parent", None)
 
 
 def reader_order(prog):
@@ -251,3 +302,23 @@ def check(prog, rep):
             decs.append(int(m.group(1)) if m else -1)
         r4.add(f"precision|{FIELD_OF[src]}", bool(decs) and min(decs) >= need,
                f"{FIELD_OF[src]} formatted with specs {sp}; needs >= {need} decimals fixed-point", where)
+    rule_chainflag(prog, rep)
+
+
+def rule_chainflag(prog, rep):
+    r5 = rep.rule("R5", "every PQR print site forwards --keep-chain to the formatter", floor=2)
+    for rel, qual in (("main.py", "main_driver"), ("main.py", "non_trivial")):
+        fn = prog.func(rel, qual).node
+        for c in calls_in(fn):
+            if not U(c.func).endswith("print_biomolecule_atoms"):
+                continue
+            kw = {k.arg: U(k.value) for k in c.keywords}
+            if kw.get("pdbfile") == "True":
+                continue  # PDB-format lines always carry the chain
+            flag = kw.get("chainflag", U(c.args[1]) if len(c.args) > 1 else None)
+            r5.add(f"chainflag|{qual}:{U(c.args[0]) if c.args else kw.get('atomlist')}", flag == "args.keep_chain",
+                   f"print_biomolecule_atoms(..., chainflag={flag}); the chain column is written only when the flag is forwarded",
+                   f"pdb2pqr/{rel}:{c.lineno} ({qual})")
+    pba = prog.func("io.py", "print_biomolecule_atoms").node
+    fw = [U(k.value) for c in calls_in(pba) if U(c.func).endswith("get_pqr_string") for k in c.keywords if k.arg == "chainflag"]
+    r5.add("chainflag|printer", fw == ["chainflag"], f"print_biomolecule_atoms hands {fw} to get_pqr_string", f"pdb2pqr/io.py:{pba.lineno} (print_biomolecule_atoms)")
